@@ -3,7 +3,9 @@
 Decides (DESIGN 3/C07): R1 argument roles at the call of the checked scoring object, R2 provenance of
 everything handed to ``forecaster.fit / update / predict`` (no leakage, exact training window, the
 exogenous rows ``cutoff+1 .. last test position``), R3 order fit-or-update < predict < score < row
-append, one row per split, the row's cutoff / len_train_window / score, R4 the strategy table
+append, one row per split, the row's cutoff / len_train_window / score (the cutoff must be read after this
+fold's fit-or-update -- DESIGN says "after predict", but predict does not move the cutoff, so a read between
+fit and predict is behaviour-preserving and accepted), R4 the strategy table
 (``fit`` iff first fold or refit), ``_check_strategy`` / ``check_cv`` / ``check_scoring`` / ``check_y_X``
 precede their uses and reject what they have to reject.
 
@@ -15,7 +17,7 @@ from ..index import AnalysisError
 from ..lin import Lin
 from .. import astq
 from ._c07_prov import (Interp, Validators, T, P, C, NONE, attr, sub, fn, call, is_const, cval, is_call, is_mcall,
-                        call_args, subterms, contains, show, bind_terms, ceval, pc_holds, Undef, int_consts,
+                        call_args, subterms, contains, show, bind_terms, ceval, pc_holds, Undef, int_consts, valuations,
                         strip_list, anchor_unsupported)
 
 FUNCS = "sktime/forecasting/model_evaluation/_functions.py"
@@ -267,6 +269,8 @@ class EvalAnalysis:
     def label(self, t):
         """Recognised provenance class of a data term (string) or None when the term is opaque."""
         core = self.V.strip(t)
+        while is_mcall(core, "copy") and not core.a[1]:
+            core = self.V.strip(core.a[0].a[0])
         if core == NONE:
             return "None"
         if isinstance(core, T) and core.op == "carried":
@@ -281,7 +285,28 @@ class EvalAnalysis:
             r = self.rows(idx)
             if r is not None:
                 return "%s[rows %r .. %r)" % (kind, r[0], r[1])
+            # the split positions shifted by a constant (train - 1, test + 1, ...)
+            if isinstance(idx, T) and idx.op == "binop" and idx.a[0] in ("Add", "Sub"):
+                for pos, k in ((idx.a[1], idx.a[2]), (idx.a[2], idx.a[1])):
+                    if pos in (self.TRAIN, self.TEST) and is_const(k) and isinstance(cval(k), int) and not isinstance(cval(k), bool) \
+                            and (idx.a[0] == "Add" or pos is idx.a[1]):
+                        which = "train" if pos == self.TRAIN else "test"
+                        d = cval(k) if idx.a[0] == "Add" else -cval(k)
+                        return "%s[%s]" % (kind, which) if d == 0 else "%s[%s shifted by %+d]" % (kind, which, d)
+            # a constant sub-selection of the split positions (test[:-1], train[1:], test[0], ...)
+            if isinstance(idx, T) and idx.op == "sub" and idx.a[0] in (self.TRAIN, self.TEST):
+                which = "train" if idx.a[0] == self.TRAIN else "test"
+                k = idx.a[1]
+                if isinstance(k, T) and k.op == "slice" and k.a == (None, None, None):
+                    return "%s[%s]" % (kind, which)
+                consts = [x for x in (k.a if isinstance(k, T) and k.op == "slice" else (k,)) if x is not None]
+                if consts and all(is_const(x) and isinstance(cval(x), int) for x in consts):
+                    return "%s[part of %s]" % (kind, which)
             return None
+        if isinstance(core, T) and core.op == "sub" and isinstance(core.a[0], T) and core.a[0].op == "attr" and core.a[0].a[1] == "index" \
+                and is_const(core.a[1]) and isinstance(cval(core.a[1]), int):
+            inner = self.label(core.a[0].a[0])
+            return None if inner is None else "%s.index[%d]" % (inner, cval(core.a[1]))
         if core == P("y"):
             return "y (whole series)"
         if core == P("X"):
@@ -291,6 +316,40 @@ class EvalAnalysis:
         if is_const(core):
             return "constant %r" % (cval(core),)
         return None
+
+    def leak_sources(self, t):
+        """Labels of observations outside the training window that flow into ``t`` by value
+        (sub-terms below an ``.index`` / ``len`` are labels / sizes only and do not count)."""
+        out = []
+        stack = [t]
+        while stack:
+            x = stack.pop()
+            if isinstance(x, tuple):
+                stack.extend(x)
+                continue
+            if not isinstance(x, T):
+                continue
+            if x.op == "attr" and x.a[1] in ("index", "shape", "name", "columns"):
+                continue
+            if x.op in ("elem", "item", "enumidx"):
+                continue  # split positions, not observations
+            if is_call(x, fn("builtins.len")):
+                continue
+            lab = self.label(x)
+            sl = self.slice_of(x)
+            if lab is None and sl is not None:
+                # a slice whose rows are not interpretable: decided only by what the row expression mentions
+                if sl[0] == "y" and contains(sl[1], self.TEST) and not contains(sl[1], self.TRAIN):
+                    out.append("y[part of test]")
+                continue
+            if lab is not None and (lab.startswith("y[") or lab.startswith("y (")) and lab != "y[train]":
+                if lab not in out:
+                    out.append(lab)
+                continue
+            if lab is not None and lab.endswith("[train]"):
+                continue
+            stack.extend(x.a)
+        return out
 
     def fh_label(self, t):
         """Provenance class of a horizon argument."""
@@ -364,15 +423,41 @@ class Merged:
                     self.ctx.violation(rule, name + ("<-" + vkey if vkey else ""), detail, loc)
 
 
-def role_check(out, scen, rule, construct, label, expected, what, loc, wrong_hint=""):
-    """label in expected -> HOLDS; another *recognised* label -> VIOLATION; opaque -> UNDECIDED."""
-    if label is None:
+def role_check(out, scen, rule, construct, label, expected, what, loc, wrong_hint="", leaks=()):
+    """label in expected -> HOLDS; another *recognised* label -> VIOLATION; opaque -> UNDECIDED
+    (VIOLATION when observations outside the training window demonstrably flow into it)."""
+    if label is None and leaks:
+        out.add(scen, "violation", rule, construct, "%s derives from %s: observations outside this fold's training window reach the "
+                "forecaster before it predicts" % (what, ", ".join(leaks)), loc, vkey="derived-from:" + leaks[0])
+    elif label is None:
         out.add(scen, "undecided", rule, construct, "%s: provenance of the argument is not interpretable" % what, loc)
     elif label in expected:
         out.add(scen, "ok", rule, construct, "%s is %s" % (what, label), loc)
     else:
         out.add(scen, "violation", rule, construct, "%s is %s, expected %s%s" % (what, label, " or ".join(expected), wrong_hint),
                 loc, vkey=label)
+
+
+def option_args(out, scen, kind, sig, b, data_roles, loc):
+    """Option arguments (update_params, return_pred_int, alpha, ...) of a forecaster call: an honest fold passes
+    none or the documented default; another constant changes what is measured."""
+    import ast as _ast
+    defaults = astq.param_defaults(sig)
+    for p in b:
+        if p in data_roles or p in ("**", "**extra", "!unknown", "*"):
+            continue
+        t = b[p]
+        d = defaults.get(p)
+        if is_const(t) and isinstance(d, _ast.Constant):
+            same = type(cval(t)) is type(d.value) and cval(t) == d.value
+            out.check(scen, same, "R2", "evaluate:%s(%s)" % (kind, p), "%s=%r is the default" % (p, cval(t)),
+                      "forecaster.%s is called with %s=%r (default %r): the fold is not an honest %s" % (kind, p, cval(t), d.value, kind),
+                      loc, vkey="%s=%r" % (p, cval(t)))
+        elif is_const(t):
+            out.add(scen, "ok", "R2", "evaluate:%s(%s)" % (kind, p), "%s is the constant %r" % (p, cval(t)), loc)
+        else:
+            out.add(scen, "undecided", "R2", "evaluate:%s(%s)" % (kind, p), "argument %s of forecaster.%s is not a constant: %s"
+                    % (p, kind, show(t)), loc)
 
 
 # ----------------------------------------------------------------------------- rules on evaluate()
@@ -430,12 +515,12 @@ def check_evaluate(ctx, repo, out, x_given, callsig):
                 continue
             if "y" in b:
                 role_check(out, scen, "R2", "evaluate:%s(y)" % kind, A.label(b["y"]), ("y[train]",),
-                           "series handed to forecaster.%s" % kind, L(ev))
+                           "series handed to forecaster.%s" % kind, L(ev), leaks=A.leak_sources(b["y"]))
             else:
                 out.add(scen, "violation", "R2", "evaluate:%s(y)" % kind, "forecaster.%s receives no series" % kind, L(ev), vkey="missing")
             if "X" in b:
                 role_check(out, scen, "R2", "evaluate:%s(X)" % kind, A.label(b["X"]), x_train,
-                           "exogenous data handed to forecaster.%s" % kind, L(ev))
+                           "exogenous data handed to forecaster.%s" % kind, L(ev), leaks=A.leak_sources(b["X"]))
             else:
                 out.check(scen, not x_given, "R2", "evaluate:%s(X)" % kind, "no exogenous data to pass",
                           "forecaster.%s does not receive the exogenous training rows" % kind, L(ev), vkey="missing")
@@ -458,12 +543,7 @@ def check_evaluate(ctx, repo, out, x_given, callsig):
                 out.check(scen, not bad_terms, "R2", "evaluate:%s(**)" % kind, "extra keyword arguments derive only from fit_params",
                           "extra keyword arguments of forecaster.%s do not derive from fit_params: %s" % (kind, ", ".join(bad_terms)),
                           L(ev), vkey="other")
-            for p in b:
-                if p in ("y", "X", "fh", "**", "**extra", "!unknown"):
-                    continue
-                lab = A.label(b[p])
-                out.check(scen, True if (lab or "").startswith("constant") else None, "R2", "evaluate:%s(%s)" % (kind, p),
-                          "%s is %s" % (p, lab), "argument %s of forecaster.%s is not a constant: %s" % (p, kind, show(b[p])), L(ev))
+            option_args(out, scen, kind, sig, b, ("y", "X", "fh"), L(ev))
     if not preds:
         out.add(scen, "undecided", "R2", "evaluate:predict", "no forecaster.predict call in the fold loop", loc0)
     for ev in preds:
@@ -471,6 +551,7 @@ def check_evaluate(ctx, repo, out, x_given, callsig):
         if b is None or "*" in b or "**" in b:
             out.add(scen, "undecided", "R2", "evaluate:predict", "arguments of forecaster.predict cannot be bound", L(ev))
             continue
+        option_args(out, scen, "predict", base.methods["predict"], b, ("fh", "X"), L(ev))
         if "fh" in b:
             role_check(out, scen, "R2", "evaluate:predict(fh)", A.fh_label(b["fh"]), FH_OK, "horizon handed to forecaster.predict", L(ev))
         else:
@@ -524,14 +605,29 @@ def check_evaluate(ctx, repo, out, x_given, callsig):
     else:
         out.add(scen, "undecided", "R3", "evaluate:fold-loop:iterates", "loop does not iterate cv.split(...) directly: %s" % show(it),
                 ctx.loc(mod, A.loop.node))
+    def fitted_before(ev):
+        """(True|False|None, witness): a fit/update of this fold precedes ``ev`` on every path.  The must-set is
+        path-insensitive, so when it fails the finite (fold number, strategy) table decides."""
+        if "fitupd" in ev.must:
+            return True, None
+        try:
+            for n, s_, val in strategy_domain(A, fits + upds + [ev]):
+                if pc_holds(ev.pc, val) and not any(e.seq < ev.seq and pc_holds(e.pc, val) for e in fits + upds):
+                    return False, "fold %d with strategy=%r" % (n, s_)
+            return True, None
+        except Undef as u:
+            return None, show(u.args[0] if u.args else "?")
+
     for ev in preds:
-        out.check(scen, "fitupd" in ev.must, "R3", "evaluate:order:fit-or-update<predict",
-                  "every path to predict passes fit or update of this fold",
-                  "predict can be reached before the forecaster saw this fold's training window", L(ev))
+        okf, wit = fitted_before(ev)
+        out.check(scen, okf, "R3", "evaluate:order:fit-or-update<predict", "every path to predict passes fit or update of this fold",
+                  ("%s reaches predict before the forecaster saw this fold's training window" % wit) if okf is False else
+                  "not every path to predict passes fit/update and the guarding condition is not evaluable: %s" % wit, L(ev), vkey="unfitted")
     for ev in scores:
         out.check(scen, "predict" in ev.must, "R3", "evaluate:order:predict<score", "score follows predict", "score can precede predict", L(ev))
     for ev in appends:
-        out.check(scen, "score" in ev.must and "predict" in ev.must and "fitupd" in ev.must, "R3", "evaluate:order:score<append",
+        okf, wit = fitted_before(ev)
+        out.check(scen, None if okf is None else ("score" in ev.must and "predict" in ev.must and okf), "R3", "evaluate:order:score<append",
                   "row is appended after fit/update, predict and score", "a row can be appended before the fold was fitted, predicted and scored", L(ev))
     if not appends:
         out.add(scen, "undecided", "R3", "evaluate:append", "no row is appended to a loop-carried table in the fold loop", loc0)
@@ -540,9 +636,24 @@ def check_evaluate(ctx, repo, out, x_given, callsig):
         hi = max(s.cnt.get("append", (0, 0))[1] for s in A.loop.ends) if A.loop.ends else 0
         if A.loop.breaks:
             out.add(scen, "undecided", "R3", "evaluate:append:once-per-split", "fold loop contains `break`", ctx.loc(mod, A.loop.node))
+        elif (lo, hi) == (1, 1):
+            out.add(scen, "ok", "R3", "evaluate:append:once-per-split", "exactly one row per split on every path", ctx.loc(mod, A.loop.node))
         else:
-            out.check(scen, (lo, hi) == (1, 1), "R3", "evaluate:append:once-per-split", "exactly one row per split on every path",
-                      "between %d and %d rows are appended per split" % (lo, hi), ctx.loc(mod, A.loop.node), vkey="%d..%d" % (lo, hi))
+            # counters are path-insensitive: decide by the table over fold number, strategy and the opaque atoms
+            try:
+                wit = None
+                for n, s_, val in strategy_domain(A, appends):
+                    k = sum(1 for e in appends if pc_holds(e.pc, val))
+                    if k != 1:
+                        free = ["%s=%s" % (show(a), v) for a, v in val.items() if isinstance(a, T) and a.op not in ("param", "enumidx")]
+                        wit = (k, n, s_, "; ".join(free)[:160])
+                        break
+                out.check(scen, wit is None, "R3", "evaluate:append:once-per-split", "exactly one row per split for every valuation of the conditions",
+                          "%d rows are appended in fold %d with strategy=%r when %s" % wit if wit else "", ctx.loc(mod, A.loop.node),
+                          vkey="%d..%d" % (lo, hi))
+            except Undef as u:
+                out.add(scen, "undecided", "R3", "evaluate:append:once-per-split", "between %d and %d rows per split and the conditions are not "
+                        "evaluable: %s" % (lo, hi, show(u.args[0] if u.args else "?")), ctx.loc(mod, A.loop.node))
         ret = A.res.ret_term()
         louts = [x for x in subterms(ret) if isinstance(x, T) and x.op == "loopout" and x.a[3] == A.loop.id] if ret is not None else []
         good = any(any(contains(x.a[2], ev.term) or contains(x.a[2], ev.args[0]) for ev in appends if ev.args) for x in louts)
@@ -577,13 +688,14 @@ def check_evaluate(ctx, repo, out, x_given, callsig):
             v = cu[0][1]
             if v == attr(FORECASTER, "cutoff"):
                 reads = [e for e in A.events if e.kind == "read" and e.node is v.node]
-                fresh = bool(reads) and all("fitupd" in e.must for e in reads)
-                out.check(scen, fresh if reads else None, "R3", "evaluate:row:cutoff", "forecaster.cutoff is read after this fold's fit/update",
+                verdicts = [fitted_before(e)[0] for e in reads]
+                fresh = None if (not reads or None in verdicts) else all(verdicts)
+                out.check(scen, fresh, "R3", "evaluate:row:cutoff", "forecaster.cutoff is read after this fold's fit/update",
                           "forecaster.cutoff is read before this fold's fit/update (reports the previous fold's cutoff)", L(ev), vkey="stale")
             else:
                 lab = A.label(v)
                 cl = A.cutoff_label()
-                if v in cl:
+                if v in cl or lab == "y[train].index[-1]":
                     out.add(scen, "ok", "R3", "evaluate:row:cutoff", "cutoff is the last training label", L(ev))
                 else:
                     out.check(scen, None if lab is None else False, "R3", "evaluate:row:cutoff", "",
@@ -636,44 +748,51 @@ def check_evaluate(ctx, repo, out, x_given, callsig):
     return A
 
 
-def strategy_table(ctx, A, out, scen, fits, upds, loc0):
-    """fit iff first fold or strategy == 'refit'; update otherwise (exhaustive finite table)."""
-    pcs = [t for ev in fits + upds for t, _ in ev.pc]
+def strategy_domain(A, events):
+    """Valuations (fold number n, strategy s, {term: value}) exhaustive for the atoms in the events' path conditions:
+    fold numbers 0, 1, 2 and the neighbours of every integer constant compared against; both legal strategies."""
+    pcs = [t for ev in events for t, _ in ev.pc]
     enums = set()
     for t in pcs:
         for x in subterms(t):
             if isinstance(x, T) and x.op == "enumidx" and x.a[2] == A.loop.id:
                 enums.add(x)
+    ns = {0, 1, 2}
+    for k in int_consts(pcs):
+        ns.update(x for x in (k - 1, k, k + 1, k + 2) if x >= 0)
+    for n in sorted(ns):
+        for s in ("refit", "update"):
+            val = {P("strategy"): s}
+            for e in enums:
+                if not (is_const(e.a[1]) and isinstance(cval(e.a[1]), int)):
+                    raise Undef(e)
+                val[e] = cval(e.a[1]) + n
+            # opaque Boolean atoms (flags, comparisons of values) are enumerated both ways
+            for v, _ in valuations([ev.pc for ev in events], val):
+                yield n, s, v
+
+
+def strategy_table(ctx, A, out, scen, fits, upds, loc0):
+    """fit iff first fold or strategy == 'refit'; update otherwise (exhaustive finite table)."""
+    pcs = [t for ev in fits + upds for t, _ in ev.pc]
     strs = set()
     for t in pcs:
         for x in subterms(t):
             if is_const(x) and isinstance(cval(x), str):
                 strs.add(cval(x))
-    ns = {0, 1, 2}
-    for k in int_consts(pcs):
-        ns.update(x for x in (k - 1, k, k + 1, k + 2) if x >= 0)
     bad = None
     undef = None
     rows = 0
-    for n in sorted(ns):
-        for s in ("refit", "update"):
-            val = {P("strategy"): s}
-            try:
-                for e in enums:
-                    if not (is_const(e.a[1]) and isinstance(cval(e.a[1]), int)):
-                        raise Undef(e)
-                    val[e] = cval(e.a[1]) + n
-                nf = sum(1 for ev in fits if pc_holds(ev.pc, val))
-                nu = sum(1 for ev in upds if pc_holds(ev.pc, val))
-            except Undef as u:
-                undef = u.args[0] if u.args else "?"
-                break
+    try:
+        for n, s, val in strategy_domain(A, fits + upds):
+            nf = sum(1 for ev in fits if pc_holds(ev.pc, val))
+            nu = sum(1 for ev in upds if pc_holds(ev.pc, val))
             rows += 1
             want = (1, 0) if (n == 0 or s == "refit") else (0, 1)
             if (nf, nu) != want and bad is None:
                 bad = (n, s, nf, nu, want)
-        if undef is not None:
-            break
+    except Undef as u:
+        undef = u.args[0] if u.args else "?"
     loc = ctx.loc(A.mod, (fits + upds)[0].node) if fits + upds else loc0
     if undef is not None:
         out.add(scen, "undecided", "R4", "evaluate:strategy-table", "condition guarding fit/update has an atom the table cannot evaluate: %s"
@@ -835,6 +954,6 @@ def run(ctx):
     check_scoring_validator(ctx, repo, callsig)
     check_cv_validator(ctx, repo)
     ctx.floor("R1", 9)
-    ctx.floor("R2", 9)
+    ctx.floor("R2", 10)
     ctx.floor("R3", 11)
     ctx.floor("R4", 8)
